@@ -2,7 +2,7 @@
 import ast
 
 from py2lean_types import (Unsupported, Impure, TInt, TBool, TStr, TNone, TRange, TErased, TList, TOpt, TTuple,
-                           TDict, TObj, TAbs, TExc, TUnion, TVar, THet, TBuilder, INT, BOOL, STR, NONE, RANGE, ERASED,
+                           TDict, TObj, TAbs, TExc, TUnion, TVar, THet, TBuilder, TEffect, INT, BOOL, STR, NONE, RANGE, ERASED,
                            resolve, unify, join, coerce, proj, iter_elem)
 from py2lean_expr import src, indent, TyRef, lstr
 
@@ -171,6 +171,22 @@ class CallMixin:
             m = getattr(self, "b_" + f.id, None)
             if m is not None:
                 return m(e, env, k)
+            if f.id in env and isinstance(resolve(env[f.id][1]), TObj):     # obj(…) is obj.__call__(…)
+                oc, ot = env[f.id]
+                fn = self.reg.method(self.reg.classes[resolve(ot).cls], "__call__")
+                if fn is None:
+                    raise Unsupported("__call__ of {} is not translated".format(resolve(ot).cls))
+                return self.call_function(fn, oc, e, env, k)
+            if f.id in self.reg.abs_ctors:                  # an interface object made by hand-written glue
+                lean, ptys, rty, raises = self.reg.abs_ctors[f.id]
+                self.args_no_kw(e, len(ptys))
+
+                def fin_a(vs):
+                    code = " ".join([lean] + [coerce(c, t, pt) for (c, t), pt in zip(vs, ptys)])
+                    if raises:
+                        return self.bind(code, rty, k, "g")
+                    return k("(" + code + ")", rty)
+                return self.exprs(list(e.args), env, fin_a)
             if f.id in self.reg.builders:                   # an object that is built by commands: start its log
                 b = self.reg.builders[f.id]
                 self.args_no_kw(e, len(b["ctor"]))
@@ -340,6 +356,10 @@ class CallMixin:
         return self.exprs(e.args, env, fin)
 
     def b_combinations(self, e, env, k):
+        if len(e.args) == 2 and not e.keywords and isinstance(e.args[1], ast.Constant) and e.args[1].value == 2:
+            # combinations(l, 2): the pairs (unpacked by `for a, b in …`)
+            return self.expr(e.args[0], env, lambda c, t: self.as_list(c, t, lambda l, el: k(
+                "(Py.combos2 {})".format(l), TList(TTuple([el, el])))))
         return self.itertools("combos", e, env, k)
 
     def b_combinations_with_replacement(self, e, env, k):
@@ -483,6 +503,23 @@ class CallMixin:
             if fn is None:
                 raise Unsupported("method self.{} is not translated".format(f.attr))
             return self.call_function(fn, "self", e, env, k)
+
+        ekey = self.effect_key(recv, env) if hasattr(self, "effect_key") else None
+        if ekey is not None:
+            # an observer of the effect object (its state is not changed): a value
+            et = resolve(env[ekey][1])
+            prim = self.reg.effects[et.name]["methods"].get(f.attr)
+            if prim is None or prim.get("ret") is None:
+                raise Unsupported("a state-changing call of the {} object inside an expression: {}".format(et.name, src(e)))
+            params = [(p_[0], p_[1]) for p_ in prim["params"]]
+            defaults = {p_[0]: p_[2] for p_ in prim["params"] if len(p_) > 2}
+
+            def fin_e(codes, _given):
+                call = " ".join([prim["lean"], env[ekey][0]] + codes)
+                if prim.get("raises"):
+                    return self.bind(call, prim["ret"], k, "o")
+                return k("(" + call + ")", prim["ret"])
+            return self.bind_args(params, defaults, e, env, fin_e)
 
         def with_recv(c, t):
             t = resolve(t)
